@@ -246,7 +246,9 @@ var DecodePushRequestStringV2 = Build(
 func encodeLabels(lbls [][]string) string {
 	arrLbls := make([]string, len(lbls))
 	for i, l := range lbls {
-		arrLbls[i] = fmt.Sprintf("%s:%s", strconv.Quote(l[0]), strconv.Quote(l[1]))
+		k, _ := jsonApi.MarshalToString(l[0])
+		v, _ := jsonApi.MarshalToString(l[1])
+		arrLbls[i] = fmt.Sprintf("%s:%s", k, v)
 	}
 	return fmt.Sprintf("{%s}", strings.Join(arrLbls, ","))
 }
